@@ -462,7 +462,7 @@ type Conn struct {
 	// SetDeadline arms the read side AND returns this error; SetWriteDeadline
 	// only returns it.
 	DeadlineWriteErr error
-	wroteN      int64
+	wroteN           int64
 }
 
 type DeadlineCall struct {
